@@ -197,6 +197,13 @@ VCLAUSE(history_1d, 24000, 6000, 60000, "the sequence contains runs of >= 3 corr
 				VMUST_RETURN("Interpolate", v = paren ? sl.obj(x) : sl.obj.Interpolate(x); r = g.Interpolate(x));
 				VLOG(c, "op " << op << " slot " << si << " Interpolate(" << x << ") [" << mode << "] = " << v);
 				if(!knot)
+				{
+					Interpolation unit = tb.pristine;
+					double u = 0;
+					VMUST_RETURN("Interpolate (unscaled model)", u = unit.Interpolate(x));
+					VCLOSE(c, "value_scales_with_prefactor", v, sl.P * u, 4 * EPS * std::fabs(sl.P * u), "op " << op << ": Interpolate(" << x << ") with accumulated prefactor " << sl.P << " vs prefactor times the unscaled value");
+				}
+				if(!knot)
 					VCHECK(same_bits(v, r), "op " << op << ": Interpolate(" << x << ") on the used object = " << v << ", fresh object = " << r << " (" << mode << ", not a knot)");
 				else
 					VCLOSE(c, "knot_value", v, r, 128 * EPS * sc, "op " << op << ": Interpolate at knot " << x << " used vs fresh");
@@ -207,6 +214,14 @@ VCLAUSE(history_1d, 24000, 6000, 60000, "the sequence contains runs of >= 3 corr
 				double v = 0, r = 0;
 				VMUST_RETURN("Derivative", v = sl.obj.Derivative(x, d); r = g.Derivative(x, d));
 				VLOG(c, "op " << op << " slot " << si << " Derivative(" << x << "," << d << ") [" << mode << "] = " << v);
+				// every output changes by exactly the accumulated factor: compare with P times the answer of an unscaled fresh object
+				if(!knot)
+				{
+					Interpolation unit = tb.pristine;
+					double u = 0;
+					VMUST_RETURN("Derivative (unscaled model)", u = unit.Derivative(x, d));
+					VCLOSE(c, "derivative_scales_with_prefactor", v, sl.P * u, 4 * EPS * std::fabs(sl.P * u), "op " << op << ": Derivative(" << x << "," << d << ") with accumulated prefactor " << sl.P << " vs prefactor times the unscaled derivative");
+				}
 				if(!knot)
 					VCHECK(same_bits(v, r), "op " << op << ": Derivative(" << x << "," << d << ") used = " << v << ", fresh = " << r << " (" << mode << ")");
 				else if(d <= 1)
